@@ -307,3 +307,122 @@ class HidRef:
             final = c.data_out(payload)
             if final is not None:
                 self.queue.append(report(HID_CMD_IN, final))
+
+
+# ======================================================================================================================
+# SDP (i.MX ROM serial downloader): reference device.  Command = 16 bytes big endian (tag16, address32, format8, count32,
+# value32, reserved8); answers are 4-byte big-endian words: HAB mode first, then a command status where the protocol
+# defines one; READ_REGISTER streams `count` raw bytes after the HAB word.
+# ======================================================================================================================
+SDP_READ, SDP_WRITE, SDP_FILE, SDP_STATUS, SDP_CSF, SDP_DCD, SDP_SKIP, SDP_JUMP, SDP_BAUD = \
+    0x0101, 0x0202, 0x0404, 0x0505, 0x0606, 0x0A0A, 0x0C0C, 0x0B0B, 0x0D0D
+SDP_WRITE_OK, SDP_FILE_OK, SDP_SKIP_OK, SDP_LOCKED, SDP_UNLOCKED = 0x128A8A12, 0x88888888, 0x900DD009, 0x12343412, 0x56787856
+
+
+class SdpCore:
+    def __init__(self, cfg):
+        self.base = cfg.get("base", 0)
+        self.mem = bytearray(bytes.fromhex(cfg["mem"]))
+        self.locked = bool(cfg.get("locked", 0))
+        self.fail = {int(k): v for k, v in cfg.get("fail", {}).items()}     # command tag -> status word sent instead of OK
+        self.error_status = cfg.get("error_status", 0xF0F0F0F0)
+        self.log = []
+        self.pending = None          # [tag, address, count, buf]
+
+    def hab(self):
+        return struct.pack(">I", SDP_LOCKED if self.locked else SDP_UNLOCKED)
+
+    def command(self, pkt):
+        """16 command bytes -> (list of 4-byte answers, raw data to stream or None)"""
+        tag, address, fmt, count, value, _r = struct.unpack(">HIB2IB", pkt[:16])
+        self.log.append(["cmd", tag, address, fmt, count, value])
+        o = address - self.base
+        if tag == SDP_READ:
+            data = bytes(self.mem[o:o + count]) if 0 <= o and o + count <= len(self.mem) else b""
+            self.log.append(["data_in", data.hex()])
+            return [self.hab()], data
+        if tag == SDP_WRITE:
+            st = self.fail.get(tag, SDP_WRITE_OK)
+            if st == SDP_WRITE_OK and 0 <= o and o + count <= len(self.mem) and count in (1, 2, 4):
+                self.mem[o:o + count] = value.to_bytes(4, "little")[:count]
+            self.log.append(["status", st])
+            return [self.hab(), struct.pack(">I", st)], None
+        if tag in (SDP_FILE, SDP_CSF, SDP_DCD):
+            self.pending = [tag, address, count, bytearray()]
+            return ([], None) if count else (self.finish(), None)
+        if tag == SDP_STATUS:
+            self.log.append(["status", self.error_status])
+            return [self.hab(), struct.pack(">I", self.error_status)], None
+        if tag == SDP_SKIP:
+            st = self.fail.get(tag, SDP_SKIP_OK)
+            self.log.append(["status", st])
+            return [self.hab(), struct.pack(">I", st)], None
+        return [self.hab()], None                       # jump / set baudrate / unknown: HAB word only
+
+    def finish(self):
+        tag, address, count, buf = self.pending
+        self.pending = None
+        ok = SDP_FILE_OK if tag == SDP_FILE else SDP_WRITE_OK
+        st = self.fail.get(tag, ok)
+        o = address - self.base
+        self.log.append(["data_out", bytes(buf).hex()])
+        if st == ok and 0 <= o and o + count <= len(self.mem):
+            self.mem[o:o + count] = buf[:count]
+        self.log.append(["status", st])
+        return [self.hab(), struct.pack(">I", st)]
+
+    def data(self, chunk):
+        """host data bytes -> answers when the announced count is complete"""
+        p = self.pending
+        if p is None:
+            return []
+        p[3] += chunk[:p[2] - len(p[3])]
+        return self.finish() if len(p[3]) >= p[2] else []
+
+    def snapshot(self):
+        return {"mem": bytes(self.mem).hex(), "log": self.log}
+
+
+class SdpSerialRef:
+    def __init__(self, core):
+        self.core, self.inbuf = core, bytearray()
+
+    def recv(self, w):
+        c, out = self.core, b""
+        self.inbuf += w
+        while self.inbuf:
+            if c.pending is None:
+                if len(self.inbuf) < 16:
+                    break
+                pkt = bytes(self.inbuf[:16])
+                del self.inbuf[:16]
+                ans, data = c.command(pkt)
+                out += b"".join(ans) + (data or b"")
+            else:
+                need = c.pending[2] - len(c.pending[3])
+                chunk = bytes(self.inbuf[:need])
+                del self.inbuf[:need]
+                out += b"".join(c.data(chunk))
+        return out
+
+
+class SdpHidRef:
+    def __init__(self, core, pad=False):
+        self.core, self.queue, self.pad = core, [], pad
+
+    def recv(self, w):
+        c = self.core
+        if not w:
+            return
+        if w[0] == 1:
+            ans, data = c.command(bytes(w[1:17]))
+            self.queue += [bytes([3]) + ans[0]] if ans else []
+            if data is not None:
+                for i in range(0, len(data), 64):
+                    ch = data[i:i + 64]
+                    self.queue.append(bytes([4]) + (ch + bytes(64 - len(ch)) if self.pad else ch))
+            self.queue += [bytes([4]) + a for a in ans[1:]]
+        elif w[0] == 2:
+            ans = c.data(bytes(w[1:]))
+            if ans:
+                self.queue += [bytes([3]) + ans[0]] + [bytes([4]) + a for a in ans[1:]]
